@@ -279,6 +279,13 @@ class SimSocket(object):
 
     def connect(self, addr):
         host, port = addr
+        pc = self.net.policy.rate("slow_connect")
+        if pc > 0 and self.net.tape.chance(pc):
+            # resolving the name takes its time
+            self.net.world.fault("slow_connect")
+            d = 0.3 + self.net.tape.draw(30) / 10.0
+            self.net.sim.trace.ev("slow-connect", d)
+            self.net.sim.now += d
         self.peer = (self.net.resolve(host), port)
 
     def setblocking(self, flag):
